@@ -19,6 +19,27 @@ theorem monNext_subscribe_noop (m : MState) (i : Slot) (u : Nat) (hold : Bool) :
 theorem cache_inv_subs {c : Cache.State} (s : List Nat) (h : Cache.Inv c) : Cache.Inv { c with subs := s } :=
   ⟨h.inbox_le, h.handled_le, h.entry_fresh, h.fill_gen, h.fill_start, h.fill_resp⟩
 
+theorem cache_inv_now {c : Cache.State} (n : Nat) (h : Cache.Inv c) : Cache.Inv { c with now := n } :=
+  ⟨h.inbox_le, h.handled_le, h.entry_fresh, h.fill_gen, h.fill_start, h.fill_resp⟩
+
+/-- the virtual clock of a cache is read by nothing the relation speaks about -/
+theorem CacheRel.now {cur : Key → Nat} {d d' : DSlot} {md md' : MSlot} (h : CacheRel cur d md)
+    (e1 : d'.modern = d.modern) (e3 : d'.held = d.held)
+    (ec : ∀ o, ∃ n, d'.caches o = { d.caches o with now := n })
+    (m1 : md'.maxHandled = md.maxHandled) (m2 : md'.invalidated = md.invalidated) (m3 : md'.starts = md.starts) :
+    CacheRel cur d' md' := by
+  constructor
+  · intro hm o; obtain ⟨s, hs⟩ := ec o; rw [hs]; exact cache_inv_now s (h.inv (e1 ▸ hm) o)
+  · intro hm key; obtain ⟨s, hs⟩ := ec key.obj; rw [hs]; exact h.srv (e1 ▸ hm) key
+  · intro hm key; obtain ⟨s, hs⟩ := ec key.obj; rw [hs, m1]; exact h.handled (e1 ▸ hm) key
+  · intro hm key hk; obtain ⟨s, hs⟩ := ec key.obj; rw [hs]; rw [m2] at hk; exact h.inval (e1 ▸ hm) key hk
+  · intro hm o; obtain ⟨s, hs⟩ := ec o; rw [hs]; exact h.inbox (e1 ▸ hm) o
+  · intro key; obtain ⟨s, hs⟩ := ec key.obj; rw [hs, e3]; exact h.held_fill key
+  · intro o; obtain ⟨s, hs⟩ := ec o; rw [hs]; exact h.fill_uniq o
+  · intro hm key f hf; obtain ⟨s, hs⟩ := ec key.obj; rw [hs] at hf; rw [m3]; exact h.starts (e1 ▸ hm) key f hf
+  · intro key; rw [m1]; exact h.maxH_le key
+  · intro hm key f hf; obtain ⟨s, hs⟩ := ec key.obj; rw [hs] at hf; rw [m3]; exact h.leg_fill (e1 ▸ hm) key f hf
+
 /-- `cs.resourceSubs` is read by nothing the relation speaks about -/
 theorem CacheRel.subs {cur : Key → Nat} {d d' : DSlot} {md md' : MSlot} (h : CacheRel cur d md)
     (e1 : d'.modern = d.modern) (e3 : d'.held = d.held)
